@@ -1105,6 +1105,24 @@ func run(cfg *Config, opt core.Options, res *core.Result) *sim {
 					}
 				}
 			}
+			if s.steps && (s.opt.Property == "C03" && s.frng.Chance(1, 3) || s.frng.Chance(1, 16)) {
+				// the proposer signs a SECOND block for its slot, built on the post-state of the first (no
+				// slot processed in between): process_block refuses it (the slot is not later than the latest header's)
+				var forged *blockRec
+				var ferr error
+				if p := guard(func() { forged, ferr = w.forgeSecondBlockOfSlot(blk) }); p != nil {
+					s.viol("C03", "panic/second-block-of-slot/"+p.frame, p.val)
+					break
+				}
+				if ferr == nil && forged != nil {
+					s.passive++
+					s.secondBlockOfSlot(blk, forged)
+					s.passive--
+					if s.stop {
+						break
+					}
+				}
+			}
 			res.Stat("blocks_fork_"+forkName(blk.post.st), 1)
 			for bit, name := range []string{"attestations", "proposer_slashing", "attester_slashing", "deposit", "exit", "sync_aggregate", "payload", "withdrawals", "bls_change", "blobs"} {
 				if blk.kinds&(1<<uint(bit)) != 0 {
